@@ -11,7 +11,8 @@ META = {
                    'shifted by a count, bounded by the SAME count, accessed in the same unit; strings use characters. R13.3 every error '
                    'return of index assignment precedes the first mutation. R13.4 lengte measures strings in characters, arrays in '
                    'elements. R13.5 a non-integer index is a type error before the integer is read. R13.6 no &mut to a payload is live '
-                   'while another Object that may alias it is dereferenced.',
+                   'while another Object that may alias it is dereferenced.'
+                   ' R13.7 every evaluation of a literal yields its own object (nothing mutable in place leaves the constant pool by reference).',
     'not_decided': ['the contents of any particular array/string after a sequence of operations'],
 }
 
@@ -66,6 +67,9 @@ def run(ctx, rep):
     rep.rule('R13.4', 'lengte: characters for strings, elements for arrays')
     rep.rule('R13.5', 'non-integer index is a type error before the integer is read')
     rep.rule('R13.6', 'no aliasing &mut/& pair on one payload')
+    rep.rule('R13.7', 'values are shared only by assignment: every evaluation of a literal yields its own object (nothing the VM mutates in place comes out of the constant pool by reference)')
+    from rules import c10 as _c10
+    _c10.check_pool_by_value(ctx, rep, 'R13.7')
     AL = alloc_reaching(F)
     movers = ['GetLocal', 'SetLocal', 'GetGlobal', 'SetGlobal', 'Const', 'Call', 'Return', 'ReturnValue', 'Pop', 'IndexSet', 'Jump', 'JumpIfFalse']
     for op in movers:
